@@ -78,7 +78,7 @@ pub struct Stats {
     pub table_prop: &'static str,
 }
 
-pub const MAX_TABLE_PER_SHARD: usize = 400_000;
+pub const MAX_TABLE_PER_SHARD: usize = 150_000;
 
 const MAX_DISTINCT_PER_SHARD: usize = 3_000_000;
 const MAX_VIOLATIONS_KEPT: usize = 60;
